@@ -48,8 +48,9 @@ Value& TANExpression::value(Context & ctx) const
   case Type::NO_TYPE:
     break;
   case Type::INTEGER:
+    /* a null integer gives a null of the result type */
     if (val.isNull())
-      return val;
+      break;
     v = Value(Numeric(std::tan(*val.integer())));
     break;
   case Type::NUMERIC:
